@@ -16,6 +16,14 @@ RULE += ("; wave 4 (props/C11_more.py): the grammar-level spec functions of Scal
          "every single-byte edit of yes/no; the prefix parsers to_u64_t/to_i64_t; slices of every length 0..24 at every alignment mod 8 with "
          "digits before and garbage after the slice; as_bytes/is_ascii/Display/Debug/==/Copy of Scalar and the accessors of ScalarError")
 # <<< a_c11
+# >>> s_c11 (wave 6)
+RULE += ("; wave 6 (props/C11_sizes.py): size ladders 0 1 2 3 7 8 9 15 16 17 31 32 33 63 64 65 127 128 129 255 256 257 1023 1024 1025 4095 4096 "
+         "4097 65533 65534 65535 65536, one dimension at a time: count of leading zeros (0..70 and the ladder) behind no sign / '+' / '-', in "
+         "front of every type boundary, before and after the '.'; length of one digit run (10^k for every k 0..70); integer digits 0..21 x "
+         "fraction digits 0..26; total length 1..70 x every position of one foreign byte; length 0..70 x start offset (0..17, 31..33, 63..65, "
+         "127..129) from an aligned address; every leading digit in every decade 10^0..10^25 and 2^k+-1 (k 0..90); to_u64_t with a start value in "
+         "every decade x digit-run length 0..21 at the overflow boundary; to_bool and as_bytes/is_ascii/Display/== on ladder lengths")
+# <<< s_c11
 TRUSTED = ["Flocq 4 binary64 (binary_normalize, Bdiv, Bmult in mode_NE) is the model of `as f64`, `/` and `*`; the literals of "
            "POWER_OF_TEN are modelled as the correctly rounded doubles of 10^k with k read from scalar.rs on every run",
            "oracle arithmetic: Python int / fractions.Fraction (exact), int/int true division (correctly rounded), struct for bit patterns"]
@@ -278,6 +286,10 @@ def run(ctx):
     from props import C11_more
     C11_more.run_more(ctx, sys.modules[__name__])
     # <<< a_c11
+    # >>> s_c11 (wave 6): size ladders, see props/C11_sizes.py
+    from props import C11_sizes
+    C11_sizes.run_sizes(ctx, sys.modules[__name__], C11_more)
+    # <<< s_c11
 
 
 def search(ctx):
